@@ -24,7 +24,7 @@ def sin(x):
 
 def log10(x):
     if isinstance(x, Sx) and not x.is_const():
-        return alg.fn("log10", x)
+        return alg.log10(x)
     return _m.log10(float(x))
 
 
